@@ -139,12 +139,11 @@ pub fn thick_oracle(ctx: &mut Ctx, s: Point, e: Point, w: u32, px: &[Point]) {
     }
     // A failure of the band claim is attributed to the known finding only if every pixel is inside
     // the band once the uncounted displacement of its side (skipped Extra steps) is discounted.
+    let (skl, skr, _) = joins_port::skipped_extras(((s.x as i64, s.y as i64), (e.x as i64, e.y as i64)), w);
+    let sk = (skl, skr);
+    let m = dx.abs().min(dy.abs());
     let mut band_class = "C17:thick-band";
-    let mut sk = (0u64, 0u64);
     if !band_ok {
-        let (skl, skr, _) = joins_port::skipped_extras(((s.x as i64, s.y as i64), (e.x as i64, e.y as i64)), w);
-        sk = (skl, skr);
-        let m = dx.abs().min(dy.abs());
         let explained = px.iter().all(|p| {
             let cross = dx * (p.y - s.y) as i128 - dy * (p.x - s.x) as i128;
             let side_sk = if cross < 0 { skl } else { skr } as i128;
@@ -153,6 +152,27 @@ pub fn thick_oracle(ctx: &mut Ctx, s: Point, e: Point, w: u32, px: &[Point]) {
         });
         if explained {
             band_class = "C17:thick-band:wide-stroke-overcount";
+        }
+    }
+    // evidence only: the largest distance beyond w/2 seen in the run (1/1000 px; the text allows 2500),
+    // as drawn and after discounting the skipped steps
+    {
+        let l = (l2 as f64).sqrt();
+        let (mut raw, mut disc) = (f64::MIN, f64::MIN);
+        for p in px {
+            let cross = dx * (p.y - s.y) as i128 - dy * (p.x - s.x) as i128;
+            let side_sk = if cross < 0 { skl } else { skr } as i128;
+            raw = raw.max(cross.abs() as f64 / l - w as f64 / 2.0);
+            disc = disc.max((cross.abs() - m * side_sk) as f64 / l - w as f64 / 2.0);
+        }
+        let bucket = if w <= 12 { "w<=12" } else if w < 34 { "w=13..33" } else { "w>=34" };
+        for (k, v) in [("as-drawn", raw), ("skipped-steps-discounted", disc)] {
+            let key = format!("thick:band-excess-max-milli-px({},{})", k, bucket);
+            let v = (v.max(0.0) * 1000.0).ceil() as u64;
+            let e = ctx.counters.entry(key).or_insert(0);
+            if v > *e {
+                *e = v;
+            }
         }
     }
     ctx.expect(band_ok, band_class, || {
